@@ -301,35 +301,41 @@ func (r *resolver) ResolveType(t *parser.Type) (err error) {
 
 // getEnum searches in the given AST and its includes an enum definition that matches the
 // given name. If the name refers to a typedef, then its original type will be considered.
-// The return value contains the target enum definition and the index of the **first**
-// included IDL or -1 if the enum is defined in the given AST.
-// When such an enum is not found, getEnum returns (nil, -1).
-func getEnum(ast *parser.Thrift, name string) (enum *parser.Enum, includeIndex int32) {
+// The return value contains the target enum definition, the index of the **first**
+// included IDL or -1 if the enum is defined in the given AST, and the selector: a name
+// that denotes the enum in the IDL the index points at (the given name when the index
+// is -1, otherwise the name the typedef refers to in the included IDL).
+// When such an enum is not found, getEnum returns (nil, -1, "").
+func getEnum(ast *parser.Thrift, name string) (enum *parser.Enum, includeIndex int32, sel string) {
 	c, exist := ast.Name2Category[name]
 	if !exist {
-		return nil, -1
+		return nil, -1, ""
 	}
 	if c == parser.Category_Enum {
 		x, ok := ast.GetEnum(name)
 		if !ok {
 			panic(fmt.Errorf("expect %q to be an enum in %q, not found", name, ast.Filename))
 		}
-		return x, -1
+		return x, -1, name
 	}
 	if c == parser.Category_Typedef {
 		if x, ok := ast.GetTypedef(name); !ok {
 			panic(fmt.Errorf("expect %q to be an typedef in %q, not found", name, ast.Filename))
 		} else {
 			if r := x.Type.Reference; r != nil {
-				e, _ := getEnum(ast.Includes[r.Index].Reference, r.Name)
+				e, _, _ := getEnum(ast.Includes[r.Index].Reference, r.Name)
 				if e != nil {
-					return e, r.Index
+					return e, r.Index, r.Name
 				}
 			}
-			return getEnum(ast, x.Type.Name)
+			e, idx, s := getEnum(ast, x.Type.Name)
+			if e != nil && idx == -1 {
+				s = name
+			}
+			return e, idx, s
 		}
 	}
-	return nil, -1
+	return nil, -1, ""
 }
 
 func (r *resolver) ResolveConstValue(t *parser.ConstValue) (err error) {
@@ -356,11 +362,11 @@ func (r *resolver) ResolveConstValue(t *parser.ConstValue) (err error) {
 				// TODO: if enum.value is written in typedef.value?
 
 				// enum.value
-				if enum, idx := getEnum(r.ast, ss[0]); enum != nil {
+				if enum, idx, sel := getEnum(r.ast, ss[0]); enum != nil {
 					for _, v := range enum.Values {
 						if v.Name == ss[1] {
 							ref = append(ref, &parser.ConstValueExtra{
-								IsEnum: true, Index: idx, Name: ss[1], Sel: ss[0],
+								IsEnum: true, Index: idx, Name: ss[1], Sel: sel,
 							})
 						}
 					}
@@ -383,7 +389,7 @@ func (r *resolver) ResolveConstValue(t *parser.ConstValue) (err error) {
 					if IDLPrefix(inc.Path) != ss[0] {
 						continue
 					}
-					if enum, _ := getEnum(inc.Reference, ss[1]); enum != nil {
+					if enum, _, _ := getEnum(inc.Reference, ss[1]); enum != nil {
 						for _, v := range enum.Values {
 							if v.Name == ss[2] {
 								ref = append(ref, &parser.ConstValueExtra{
